@@ -541,6 +541,11 @@ func doCheck(scratch, prop, tier string) int {
 		if strings.HasPrefix(sig, "known|") {
 			k := matchFinding(findings, prop, fo)
 			knownLines = append(knownLines, fmt.Sprintf("KNOWN-FINDING: property=%s %s [%d run(s), e.g. seed %d: %s]", prop, k.What, len(bySig[sig]), r.Seed, oneLine(fo.Detail, 160)))
+			// keep one (unminimised) replay of each known finding seen, for reference
+			kd := filepath.Join(filepath.Dir(replayDir()), "known")
+			os.MkdirAll(kd, 0755)
+			kb, _ := json.MarshalIndent(ReplayFile{Property: prop, Signature: fo.Kind + "|" + fo.Check, Failure: *fo, Tier: tier, Result: rr, Note: "known finding: " + k.What}, "", " ")
+			os.WriteFile(filepath.Join(kd, fmt.Sprintf("%s-%s-%d.json", prop, sanitize(fo.Check), r.Seed)), kb, 0644)
 			continue
 		}
 		// shrink
